@@ -70,11 +70,14 @@ func c10R1(p *core.Prog, r *core.Report) {
 		fname := p.FuncName(fn)
 		// the mutex: a sync.Mutex field of Reg locked in this function
 		var id core.LockID
-		core.Calls(fn, func(c ssa.CallInstruction) {
-			if l, op := core.MutexOp(c); op == "lock" && l.T == regT {
-				id = l
-			}
-		})
+		// locked here, or through an unexported helper that takes the lock and hands back the release
+		for _, h := range sortedFuncs(core.Helpers(fn, 1)) {
+			core.Calls(h, func(c ssa.CallInstruction) {
+				if l, op := core.MutexOp(c); op == "lock" && l.T == regT && id.T == nil {
+					id = l
+				}
+			})
+		}
 		if id.T == nil {
 			r.Violated(rule, fname, "fallback tag read-modify-write", p.Pos(rd[0].Pos()),
 				"the fallback referrers tag is pulled, modified and pushed without holding a mutex of the client (or under a locking idiom this rule does not recognise): concurrent updates of one subject can lose an entry")
